@@ -46,9 +46,23 @@ def hash_definition(func: Callable) -> str:
     # Prefer source code — most precise, captures comments and formatting
     try:
         source = inspect.getsource(func)
-        return hashlib.sha256(source.encode()).hexdigest()
     except (OSError, TypeError):
-        pass
+        source = None
+    if source is not None:
+        h = hashlib.sha256(source.encode())
+        # Functions made by one factory share their source text: what tells them
+        # apart is what they captured (and their defaults), as in the bytecode
+        # fallback below. Plain module-level functions hash as before.
+        closure = getattr(func, "__closure__", None)
+        if closure:
+            h.update(repr(getattr(func, "__defaults__", None)).encode())
+            h.update(repr(getattr(func, "__kwdefaults__", None)).encode())
+            for cell in closure:
+                try:
+                    h.update(repr(cell.cell_contents).encode())
+                except ValueError:
+                    h.update(b"<empty_cell>")
+        return h.hexdigest()
 
     # Bytecode fallback — for exec/eval/Jupyter-defined functions
     code = getattr(func, "__code__", None)
